@@ -206,13 +206,13 @@ Proof.
 Qed.
 Example C16_removed_unlinked_ex : content (ex_fs' false true) (zs "/t/b") = None.
 Proof.
-  apply (C16_removed_unlinked (ex_W false true) _ _ _ _ _ _ _ _ _ (zs "b") (ex_completed false true eq_refl) (ex_alias_free false true)).
+  refine (proj1 (C16_removed_unlinked (ex_W false true) _ _ _ _ _ _ _ _ _ (zs "b") (ex_completed false true eq_refl) (ex_alias_free false true) _ _)).
   - vm_compute. tauto.
   - vm_compute. intros [E|[E|[E|[]]]]; discriminate.
 Qed.
 Example C16_added_created_ex : content (ex_fs' false true) (zs "/t/n") = Some (zs "N" ++ [NL]).
 Proof.
-  apply (C16_added_created (ex_W false true) _ _ _ _ _ _ _ _ _ (zs "n") (zs "N" ++ [NL]) (ex_completed false true eq_refl) (ex_alias_free false true)).
+  refine (proj1 (C16_added_created (ex_W false true) _ _ _ _ _ _ _ _ _ (zs "n") (zs "N" ++ [NL]) (ex_completed false true eq_refl) (ex_alias_free false true) _ _)).
   - vm_compute. tauto.
   - vm_compute. intros [E|[E|[E|[]]]]; discriminate.
 Qed.
